@@ -54,7 +54,9 @@ func (m *machine) lowerInsertLane(x, y ssa.Value, index byte, ret ssa.Value, lan
 		m.insert(m.allocateInstr().asXmmRmRImm(sseOpcodeInsertps, index<<4, yy, tmpDst))
 	case ssa.VecLaneF64x2:
 		if index == 0 {
-			m.insert(m.allocateInstr().asXmmUnaryRmR(sseOpcodeMovsd, yy, tmpDst))
+			// MOVSD between registers only writes the low 64 bits: tmpDst is an input as well,
+			// so this must not be the "unary" form whose destination is a pure definition.
+			m.insert(m.allocateInstr().asXmmRmR(sseOpcodeMovsd, yy, tmpDst))
 		} else {
 			m.insert(m.allocateInstr().asXmmRmR(sseOpcodeMovlhps, yy, tmpDst))
 		}
